@@ -213,6 +213,9 @@ func (e *Engine) Implementers(iface *types.Interface, ifaceName string) []types.
 			if types.IsInterface(t) {
 				continue
 			}
+			if embedsInterface(t, iface) {
+				continue // a struct that merely embeds the interface forwards to another implementation
+			}
 			if types.Implements(t, iface) {
 				out = append(out, t)
 			} else if pt := types.NewPointer(t); types.Implements(pt, iface) {
@@ -253,4 +256,21 @@ func (e *Engine) ContractOf(f *ssa.Function) *FuncContract {
 		return c
 	}
 	return nil
+}
+
+// embedsInterface: t is a struct with an embedded field whose type is (identical to) the interface
+func embedsInterface(t types.Type, iface *types.Interface) bool {
+	st, ok := t.Underlying().(*types.Struct)
+	if !ok {
+		return false
+	}
+	for i := 0; i < st.NumFields(); i++ {
+		f := st.Field(i)
+		if f.Embedded() {
+			if fi, ok := f.Type().Underlying().(*types.Interface); ok && types.Identical(fi, iface) {
+				return true
+			}
+		}
+	}
+	return false
 }
